@@ -41,12 +41,14 @@ FAULTS = {
     2: ['PRINT )', 'Q%=1+*2', 'BOGUS 1'],
     4: ['READ Q%', 'READ Q$,R$'],
     5: ['Q%=ASC("")+ASC(":")', 'Q=SQR(-1)', 'Q$=MID$("A:B",0)', 'LOCATE 99', 'Q$=STRING$(-1,65)', 'Q=LOG(0)',
-        'ERROR 0', 'ERROR 256', 'Q$=SPACE$(300)'],
+        'ERROR 0', 'ERROR 256', 'Q$=SPACE$(300)',
+        # the error is raised inside the expression of PRINT / IF / ON..GOTO
+        'PRINT SPC(0);SQR(-1)', 'IF SQR(-1) THEN TROFF', 'ON SQR(-1) GOTO 10', 'ON LOG(0) GOSUB 10,20'],
     6: ['Q%=32768', 'Q%=100000', 'Q%=-32769', 'Q%=32767+1', 'Q%=CINT(1E10)'],
     8: ['GOTO 7777', 'GOSUB 7777', 'ON ERROR GOTO 7777', 'RESTORE 7777', 'ON 1 GOTO 7777'],
     9: ['Q%=B%(11)', 'C%(12)=1'],
     10: ['DIM D%(1),D%(1)'],
-    13: ['Q$=1', 'Q%="A"', 'Q%=1+"A:"', 'Q$=LEFT$(1,1)'],
+    13: ['Q$=1', 'Q%="A"', 'Q%=1+"A:"', 'Q$=LEFT$(1,1)', 'PRINT 1+"A"', 'IF "A" THEN TROFF'],
     15: ['Q$=SPACE$(200)+SPACE$(200)'],
     18: ['Q%=FNU(1)'],
     22: ['Q%=1+'],
@@ -57,11 +59,36 @@ FAULTS = {
 }
 # fail while flag F<v>% is 0, pass without output once it is 1
 CFAULTS = {
-    6: ['Q%=32767+1-F{v}%'],
-    9: ['Q%=A%(11-F{v}%)'],
-    5: ['Q$=STRING$(F{v}%-1,65)', 'Q=SQR(F{v}%-1)'],
+    6: ['Q%=32767+1-F{v}%', 'ON 32768-32766*F{v}% GOTO 7777'],
+    9: ['Q%=A%(11-F{v}%)', 'IF A%(11-F{v}%)=0 THEN TROFF', 'PRINT SPC(A%(11-F{v}%));'],
+    5: ['Q$=STRING$(F{v}%-1,65)', 'Q=SQR(F{v}%-1)',
+        # inside the expression of PRINT / IF (condition true once repaired) / ON..GOTO (falls through)
+        'PRINT SPC(0);LEFT$("A",F{v}%-1);', 'IF SQR(F{v}%-1)=0 THEN TROFF', 'ON SQR(F{v}%-1)+2 GOTO 7777'],
     8: ['ON F{v}%+1 GOTO 7777'],
 }
+# statements without effect on the mechanism; none of them reads the blanks that follow it, so that the
+# next statement's separator is preceded by unread blanks (index 2 is the DATA line of programs with DATA)
+DATA_TEXT = 'DATA ' + ','.join(['100000'] * 30)
+NOPS = ['TROFF', 'KEY OFF', DATA_TEXT]
+# READ of a DATA item that does not fit the variable (programs with the DATA line): conversion error in READ
+RFAULTS = {6: ['READ Q%', 'READ Q%,R%']}
+# user functions: definition, functions that must be defined for a call (nested calls), error class of the
+# fault inside the body while the argument flag is 0, calling statements
+DEFS = ['DEF FNA(X%)=SQR(X%-1)', 'DEF FNB%(X%)=32767+1-X%', 'DEF FNC(X%)=A%(11-X%)', 'DEF FND(X%)=FNA(X%)+1',
+        'DEF FNE$(X%)=STRING$(X%-1,65)', 'DEF FNG(X%)=FND(X%)*2']
+DEPS = [[0], [1], [2], [3, 0], [4], [5, 3, 0]]
+ECLS = [5, 6, 9, 5, 5, 5]
+FCALLS = [['Q=FNA(F{v}%)', 'PRINT SPC(0);LEFT$("A",FNA(F{v}%));', 'IF FNA(F{v}%)=0 THEN TROFF',
+           'ON FNA(F{v}%)+2 GOTO 7777'],
+          ['Q%=FNB%(F{v}%)', 'IF FNB%(F{v}%)>0 THEN TROFF'],
+          ['Q%=FNC(F{v}%)'],
+          ['Q=FND(F{v}%)', 'Q=FND(F{v}%)+FNA(1)'],
+          ['Q$=FNE$(F{v}%)', 'PRINT FNE$(F{v}%);'],
+          ['Q=FNG(F{v}%)']]
+# FOR with a failing bound / step expression; once repaired the loop is empty (1 TO 0) and jumps over its NEXT
+FORS = {5: ['FOR Q%=1 TO SQR(F{v}%-1)', 'FOR Q%=1+SQR(F{v}%-1) TO 0', 'FOR Q%=1 TO 0 STEP SQR(F{v}%-1)+1'],
+        9: ['FOR Q%=1 TO A%(11-F{v}%)']}
+SEPS = [':'] * 11 + [' :', ' :', ': ', ': ', ' : ', ' : ', ' : ', '  :  ', ' :  ']
 # float errors: soft-handled (message, execution goes on) unless a trap has been set up
 SOFTS = {
     11: ['Q=1/0', 'Q#=7#/0', 'Q=7\\0', 'Q=7 MOD 0'],
@@ -80,7 +107,11 @@ SPECIAL = sorted(set(t for l in FAULTS.values() for t in l) | set(t for l in SOF
     'WIDTH 7', 'OUT -1,1', 'DEF SEG=-70000', 'CLEAR -1', 'OPEN "X" FOR INPUT AS 300', 'LOCK #1', 'UNLOCK #1',
     'TIME$="99"', 'DATE$="X"', 'ENVIRON "X"', 'Q$=ENVIRON$(0)', 'Q$=INPUT$(1,#1)', 'Q%=LOC(1)', 'Q%=LOF(1)',
     'LINE INPUT #1,Q$', 'WRITE #1,1', 'PUT #1', 'CLOSE:Q%=LPOS(9)', 'Q=FRE(1,2)',
+    # faults inside DEF FN bodies (functions defined in lines 1-4 of every program of this list)
+    'Q=FNA(-1)', 'Q=FNB(-1)', 'PRINT FNA(-4)', 'Q%=FNC%(1)', 'Q$=FND$(-1)', 'IF FNA(-1) THEN TROFF',
+    'ON FNB(-1) GOTO 30', 'Q=FNA(FNA(-1))', 'Q=1+FNB(-2)*3', 'Q$="A"+FND$(-1)+"B"', 'Q=FNA(1)+FNB(-9)',
 })
+SPECIAL_DEFS = ['1 DEF FNA(X)=SQR(X)', '2 DEF FNB(X)=FNA(X)+1', '3 DEF FNC%(X)=X*40000', '4 DEF FND$(X)=STRING$(X,65)']
 
 
 # ---------------------------------------------------------------------------------------------
@@ -95,7 +126,17 @@ def stext(s):
     if k == 'E':
         return 'ERROR %d' % s[1]
     if k == 'F':
-        return FAULTS[s[1]][s[2]]
+        return RFAULTS[s[1]][s[2]] if len(s) > 3 else FAULTS[s[1]][s[2]]
+    if k == 'N':
+        return NOPS[s[1]]
+    if k == 'D':
+        return DEFS[s[1]]
+    if k == 'K':
+        return FCALLS[s[1]][s[3]].format(v=s[2])
+    if k == 'A':
+        return FORS[s[2]][s[3]].format(v=s[1])
+    if k == 'B':
+        return 'NEXT'
     if k == 'C':
         return CFAULTS[s[2]][s[3]].format(v=s[1])
     if k == 'S':
@@ -135,15 +176,44 @@ def sproto(s):
         return '%s,%d' % (k, s[1])
     if k == 'C':
         return 'C,%d,%d' % (s[1], s[2])
+    if k == 'D':
+        return 'D,%d' % s[1]
+    if k == 'K':
+        return 'K,%s,%d,%d' % ('+'.join(map(str, DEPS[s[1]])), s[2], ECLS[s[1]])
+    if k == 'A':
+        return 'A,%d,%d' % (s[1], s[2])
     return k
 
 
-def prog_text(lines):
-    return ['%d %s' % (num, ':'.join(stext(s) for s in st)) for num, st in lines]
+def join_stmts(texts, lrng):
+    """statements of one line; lrng (or None) draws blanks before / after the ':' and at the line ends"""
+    if lrng is None:
+        return ':'.join(texts)
+    out = ' ' * lrng.choice([0, 0, 0, 1, 2])
+    for i, t in enumerate(texts):
+        if i:
+            out += lrng.choice(SEPS)
+        out += t
+    return out + ' ' * lrng.choice([0, 0, 0, 1, 3])
+
+
+def prog_text(lines, lay=None):
+    lrng = None if lay is None else random.Random(lay)
+    return ['%d %s' % (num, join_stmts([stext(s) for s in st], lrng)) for num, st in lines]
+
+
+def direct_texts(directs, lay=None):
+    lrng = None if lay is None else random.Random(lay + 1)
+    return [join_stmts([stext(s) for s in dl], lrng).lstrip() or ' ' for dl in directs]
 
 
 def direct_text(dl):
     return ':'.join(stext(s) for s in dl)
+
+
+def layout_of(pseed):
+    """layout seed of a generated program: one in five has no extra blanks"""
+    return None if pseed % 5 == 0 else pseed // 5
 
 
 def proto(lines, directs):
@@ -183,6 +253,7 @@ class Ref(object):
         self.failed = None
         self.err, self.erl = 0, 0
         self.flags = set()
+        self.defs = set()
         self.g = 0
         self.stack = []
         self.events = []
@@ -303,6 +374,26 @@ class Ref(object):
             self.items.append('s%d' % st[1])
         elif k == 'T':
             self.flags.add(st[1])
+        elif k == 'N':
+            pass
+        elif k == 'D':
+            if pos[0] == 'D':
+                raise _Error(12)          # DEF FN in the direct line: Illegal direct
+            self.defs.add(st[1])
+        elif k == 'K':
+            # the failing statement is the one that CALLS the function, wherever the DEF FN line is
+            if not all(d in self.defs for d in DEPS[st[1]]):
+                raise _Error(18)
+            if st[2] not in self.flags:
+                self.note('fn-body-fault:' + ('direct' if pos[0] == 'D' else 'run'))
+                raise _Error(ECLS[st[1]])
+            self.note('cfault-passed')
+        elif k == 'A':
+            if st[1] not in self.flags:
+                raise _Error(st[2])
+            return self.after(nxt)        # empty loop: execution goes on after its NEXT
+        elif k == 'B':
+            raise _Error(1)               # the NEXT of a FOR that failed: NEXT without FOR
         elif k == 'U':
             tgt = self.line_start(st[1])
             self.stack.append(nxt)
@@ -355,6 +446,7 @@ class Ref(object):
         elif k == 'RUN':
             self.trap, self.failed, self.err, self.erl = 0, None, 0, 0
             self.flags, self.g, self.stack = set(), 0, []
+            self.defs = set()
             self.trap_was_set = False         # RUN starts afresh: float errors are soft-handled again
             return (0, 0)
         else:
@@ -427,19 +519,64 @@ def pick_error(rng):
     return ('E', rng.choice([0, 256, 300, 1000]))
 
 
-def pick_fault(rng, table):
-    """a failing statement: ERROR n, a real fault, a conditional fault, a float error"""
+def pick_fault(rng, table, env=None):
+    """a failing statement: ERROR n, a real fault, a conditional fault, a float error, a fault inside a
+    DEF FN body, in a FOR expression, in the conversion of a DATA item; env = {'data': bool, 'defs': [k]}"""
+    env = env or {'data': False, 'defs': []}
     r = rng.random()
-    if r < 0.35:
+    if r < 0.28:
         return pick_error(rng)
-    if r < 0.65:
-        e = rng.choice(sorted(table['F']))
+    if r < 0.50:
+        if env['data'] and table['R'] and rng.random() < 0.3:
+            e = rng.choice(sorted(table['R']))
+            return ('F', e, rng.choice(table['R'][e]), 'R')
+        e = rng.choice([x for x in sorted(table['F']) if not (env['data'] and x == 4)])
         return ('F', e, rng.choice(table['F'][e]))
-    if r < 0.88:
+    if r < 0.67:
         e = rng.choice(sorted(table['C']))
         return ('C', rng.randrange(NFLAGS), e, rng.choice(table['C'][e]))
-    e = rng.choice(sorted(table['S']))
-    return ('S', e, rng.choice(table['S'][e]))
+    if r < 0.76:
+        e = rng.choice(sorted(table['S']))
+        return ('S', e, rng.choice(table['S'][e]))
+    if r < 0.93 and (env['defs'] or rng.random() < 0.15):
+        closed = [k for k in env['defs'] if all(d in env['defs'] for d in DEPS[k]) and k in table['K']]
+        ks = closed if closed and rng.random() < 0.85 else sorted(table['K'])
+        k = rng.choice(ks)
+        return ('K', k, rng.randrange(NFLAGS), rng.choice(table['K'][k]))
+    e = rng.choice(sorted(table['A']))
+    return ('A', rng.randrange(NFLAGS), e, rng.choice(table['A'][e]))
+
+
+def add_next(stmts):
+    """every FOR of the generated statements is followed by its NEXT"""
+    out = []
+    for s in stmts:
+        out.append(s)
+        if s[0] == 'A':
+            out.append(('B',))
+    return out
+
+
+def prelude(rng, nums, table):
+    """optional first lines: the DATA line, DEF FN lines (run through at every RUN); returns lines, env"""
+    lines, env = [], {'data': False, 'defs': []}
+    if rng.random() < 0.25:
+        env['data'] = True
+        lines.append((nums.next(), [('N', 2)]))
+    if rng.random() < 0.55:
+        r = rng.random()
+        if r < 0.6:
+            ks = sorted(table['K'])
+        else:
+            ks = sorted(rng.sample(sorted(table['K']), rng.randint(1, len(table['K']))))
+        env['defs'] = ks
+        st = [('D', k) for k in ks]
+        rng.shuffle(st)
+        cut = rng.randint(1, len(st))
+        lines.append((nums.next(), st[:cut]))
+        if st[cut:]:
+            lines.append((nums.next(), st[cut:]))
+    return lines, env
 
 
 class Numbers(object):
@@ -462,10 +599,11 @@ def gen_structured(pseed, table):
     rng = random.Random(pseed)
     nmain, nsub, nh = rng.randint(1, 5), rng.choice([0, 1, 1, 2, 3]), rng.choice([1, 1, 1, 2])
     nums = Numbers(rng)
+    pre, env = prelude(rng, nums, table)
     main_no = [nums.next() for _ in range(nmain)]
     sub_no = [[nums.next() for _ in range(rng.randint(1, 2))] for _ in range(nsub)]
     h_no = [[nums.next() for _ in range(rng.randint(2, 3))] for _ in range(nh)]
-    if UNDEF in main_no + sum(sub_no, []) + sum(h_no, []):
+    if UNDEF in main_no + sum(sub_no, []) + sum(h_no, []) + [n for n, _ in pre]:
         return gen_structured(pseed + 1, table)
     marker = [0]
 
@@ -476,9 +614,9 @@ def gen_structured(pseed, table):
     def body_stmt(later_main, later_subs, depth):
         r = rng.random()
         if r < 0.30:
-            return mark()
+            return mark() if rng.random() < 0.8 else ('N', rng.randrange(2))
         if r < 0.58:
-            return pick_fault(rng, table)
+            return pick_fault(rng, table, env)
         if r < 0.70 and later_subs:
             return ('U', rng.choice(later_subs)[0])
         if r < 0.76:
@@ -531,7 +669,7 @@ def gen_structured(pseed, table):
                 elif r < 0.75:
                     st.append(mark())
                 elif r < 0.84:
-                    st.append(pick_fault(rng, table))
+                    st.append(pick_fault(rng, table, env))
                 elif r < 0.89:
                     st.append(('O', rng.choice([0, 0, h_no[rng.randrange(nh)][0]])))
                 elif r < 0.95 and sub_no:
@@ -558,11 +696,15 @@ def gen_structured(pseed, table):
             if not st:
                 st.append(mark())
             lines.append((n, st))
-    directs = gen_directs(rng, table, all_lines, [h[0] for h in h_no])
-    return lines, directs
+    directs = gen_directs(rng, table, all_lines, [h[0] for h in h_no], env)
+    return finish(pre + lines, directs)
 
 
-def gen_directs(rng, table, targets, handlers):
+def finish(lines, directs):
+    return [(n, add_next(st)) for n, st in lines], [add_next(dl) for dl in directs]
+
+
+def gen_directs(rng, table, targets, handlers, env=None):
     directs = []
     if rng.random() < 0.1:
         directs.append(rng.choice([[('P',)], [pick_error(rng)], [('O', handlers[0])] if handlers else [('P',)],
@@ -577,20 +719,22 @@ def gen_directs(rng, table, targets, handlers):
             if rng.random() < 0.5:
                 dl.insert(0, ('O', 0))      # trapping off: RESUME outside a handler must fail
         elif r < 0.58:
-            dl = [('M', 90), pick_fault(rng, table), ('M', 91)]
+            dl = [('M', 90), pick_fault(rng, table, env), ('M', 91)]
             rng.shuffle(dl)
         elif r < 0.68:
             dl = [('G', rng.choice(targets + handlers + [UNDEF]))]
             if rng.random() < 0.4:
                 dl.insert(0, ('T', rng.randrange(NFLAGS)))
         elif r < 0.78 and handlers:
-            dl = [('O', rng.choice(handlers + [0])), pick_fault(rng, table), ('M', 92)]
+            dl = [('O', rng.choice(handlers + [0])), pick_fault(rng, table, env), ('M', 92)]
         elif r < 0.86:
             dl = [('RUN',)]
         elif r < 0.91:
             dl = [('R',)]
         elif r < 0.95:
             dl = [('P',), pick_error(rng), ('P',)]
+        elif r < 0.97:
+            dl = [('D', rng.randrange(len(DEFS)))]      # DEF FN at the prompt: Illegal direct
         else:
             dl = [('X',)]
         directs.append(dl)
@@ -603,9 +747,10 @@ def gen_random(pseed, table):
     """any statement anywhere; GOTO / GOSUB forward or undefined; trap lines are guard lines"""
     rng = random.Random(pseed)
     nums = Numbers(rng)
+    pre, env = prelude(rng, nums, table)
     n = rng.randint(2, 9)
     numbers = [nums.next() for _ in range(n)]
-    if UNDEF in numbers:
+    if UNDEF in numbers + [x for x, _ in pre]:
         return gen_random(pseed + 1, table)
     guards = sorted(rng.sample(range(n), rng.randint(1, min(3, n))))
     gno = [numbers[i] for i in guards]
@@ -619,11 +764,13 @@ def gen_random(pseed, table):
         st = []
         for _ in range(rng.randint(1, 4)):
             r = rng.random()
-            if r < 0.22:
+            if r < 0.04:
+                st.append(('N', rng.randrange(2)))
+            elif r < 0.22:
                 marker[0] += 1
                 st.append(('M', marker[0]))
             elif r < 0.42:
-                st.append(pick_fault(rng, table))
+                st.append(pick_fault(rng, table, env))
             elif r < 0.50:
                 st.append(('P',))
             elif r < 0.58:
@@ -650,8 +797,8 @@ def gen_random(pseed, table):
         first = [i for i in range(n) if i not in guards]
         if first:
             lines[first[0]][1].insert(0, ('O', rng.choice(gno)))
-    directs = gen_directs(rng, table, numbers, gno)
-    return lines, directs
+    directs = gen_directs(rng, table, numbers, gno, env)
+    return finish(pre + lines, directs)
 
 
 def fixed_programs():
@@ -700,6 +847,27 @@ def fixed_programs():
     one('handler-guard-loop', [(10, [('O', 100)]), (20, [('E', 5)]), (100, [('I',), ('Q', 3)]), (110, [('P',), ('Z',)])])
     one('resume-undefined-line', [(10, [('O', 100)]), (20, [('E', 5)]), (30, [('X',)]), (100, [('I',), ('Q', 2)]),
                                   (110, [('P',), ('ZL', UNDEF)])])
+    # faults inside DEF FN bodies: the failing statement is the CALLING one (line 50 / 70 / the direct line)
+    D = [(1, [('D', 0), ('D', 3)]), (2, [('D', 1), ('D', 4)])]
+    HR = [(100, [('P',), ('T', 0), ('T', 1), ('Z',)])]
+    for form, tag in ((('ZN',), 'next'), (('Z',), 'same'), (('ZL', 60), 'line')):
+        one('fn-body-fault/resume-%s' % tag,
+            D + [(10, [('O', 100)]), (50, [('M', 1), ('K', 0, 0, 0), ('M', 2)]), (60, [('U', 70), ('M', 3), ('X',)]),
+                 (70, [('K', 3, 1, 0), ('M', 4), ('R',)]), (100, [('I',), ('Q', 3)]),
+                 (110, [('P',), ('T', 0), ('T', 1), form])],
+            [[('RUN',)], [('P',)], [('M', 5), ('K', 4, 2, 0), ('M', 6)], [('P',)]])
+    one('fn-body-fault/untrapped', D + [(40, [('M', 1)]), (50, [('M', 2), ('K', 3, 0, 1), ('M', 3)])],
+        [[('RUN',)], [('P',)], [('K', 1, 0, 0)], [('P',)]])
+    one('fn-undefined', [(1, [('D', 3)]), (10, [('O', 100), ('K', 3, 0, 0), ('M', 1), ('K', 0, 0, 0), ('M', 2), ('X',)])] + H,
+        [[('RUN',)], [('D', 0)], [('P',)]])
+    one('for-expression-fault', [(10, [('O', 100)]), (20, [('M', 1), ('A', 0, 5, 0), ('B',), ('M', 2)]),
+                                 (30, [('A', 0, 9, 0), ('B',), ('M', 3), ('X',)])] + HR,
+        [[('RUN',)], [('A', 1, 5, 1), ('B',), ('M', 4)]])
+    one('for-expression-fault/resume-next', [(10, [('O', 100)]), (20, [('M', 1), ('A', 0, 5, 0), ('B',), ('M', 2), ('X',)])] + H)
+    one('read-conversion', [(5, [('N', 2)]), (10, [('O', 100)]), (20, [('M', 1), ('F', 6, 0, 'R'), ('M', 2)]),
+                            (30, [('F', 6, 1, 'R'), ('X',)])] + H, [[('RUN',)], [('F', 6, 0, 'R')], [('P',)]])
+    one('after-nop', [(10, [('O', 100)]), (20, [('N', 0), ('E', 5), ('N', 1), ('F', 13, 0), ('O', 100), ('E', 7), ('M', 1)]),
+                      (30, [('X',)])] + H, [[('RUN',)], [('N', 0), ('E', 9), ('M', 2)]])
     return progs
 
 
@@ -828,26 +996,32 @@ class Impl(object):
 
 
 def validate_table(ctx, impl):
-    """the real statements of the tables must raise the error number the model is told: untrapped, in a
-    one-line program, the message must name that error and line 20 (float errors: the soft message)"""
-    table = {'F': {}, 'C': {}, 'S': {}}
+    """the real statements of the tables must raise the error NUMBER the model is told (untrapped, in a small
+    program; float errors: the soft message); entries that do not are dropped.  The LINE named in the message
+    is the property itself: an entry with the right error but the wrong line is kept and reported."""
+    table = {'F': {}, 'C': {}, 'S': {}, 'K': {}, 'A': {}, 'R': {}}
+
+    def keep(kind, key, i, st, out, e, tail=''):
+        m = re.match(r'^ok -:err(\d+)(?:@(\d+))?(/.*)?$', out)
+        if m and int(m.group(1)) == e and (m.group(3) or '') == tail:
+            table[kind].setdefault(key, []).append(i)
+            if m.group(2) != '20':
+                ctx.fail('untrapped-line:' + stext(st), {'kind': 'table'},
+                         'statement %r in line 20 fails untrapped with error %d, but the message names line %s (%s)'
+                         % (stext(st), e, m.group(2), out))
+        else:
+            ctx.count('table-entry-dropped')
+            ctx.notes.setdefault('table_dropped', []).append([stext(st), out])
+
     for e, texts in sorted(FAULTS.items()):
         for i, _t in enumerate(texts):
-            out = impl.run(prog_text([(20, [('F', e, i)])]), ['RUN'])
-            if out == 'ok -:err%d@20' % e:
-                table['F'].setdefault(e, []).append(i)
-            else:
-                ctx.count('table-entry-dropped')
-                ctx.notes.setdefault('table_dropped', []).append([stext(('F', e, i)), out])
+            st = ('F', e, i)
+            keep('F', e, i, st, impl.run(prog_text([(20, [st])]), ['RUN']), e)
     for e, texts in sorted(CFAULTS.items()):
         for i, _t in enumerate(texts):
-            out = impl.run(prog_text([(20, [('C', 1, e, i)]), (30, [('T', 1), ('C', 1, e, i), ('M', 1)])]),
-                           ['RUN', 'GOTO 30'])
-            if out == 'ok -:err%d@20/m1:ok' % e:
-                table['C'].setdefault(e, []).append(i)
-            else:
-                ctx.count('table-entry-dropped')
-                ctx.notes.setdefault('table_dropped', []).append([stext(('C', 1, e, i)), out])
+            st = ('C', 1, e, i)
+            out = impl.run(prog_text([(20, [st]), (30, [('T', 1), st, ('M', 1)])]), ['RUN', 'GOTO 30'])
+            keep('C', e, i, st, out, e, '/m1:ok')
     for e, texts in sorted(SOFTS.items()):
         for i, _t in enumerate(texts):
             out = impl.run(prog_text([(20, [('S', e, i), ('M', 1)])]), ['RUN'])
@@ -856,7 +1030,26 @@ def validate_table(ctx, impl):
             else:
                 ctx.count('table-entry-dropped')
                 ctx.notes.setdefault('table_dropped', []).append([stext(('S', e, i)), out])
-    for k in 'FCS':
+    for k, texts in enumerate(FCALLS):
+        defs = (5, [('D', d) for d in sorted(DEPS[k])])
+        for i, _t in enumerate(texts):
+            st = ('K', k, 1, i)
+            out = impl.run(prog_text([defs, (20, [st]), (30, [('T', 1), st, ('M', 1)])]), ['RUN', 'GOTO 30'])
+            keep('K', k, i, st, out, ECLS[k], '/m1:ok')
+    for e, texts in sorted(FORS.items()):
+        for i, _t in enumerate(texts):
+            st = ('A', 1, e, i)
+            out = impl.run(prog_text([(20, [st, ('B',)]), (30, [('T', 1), st, ('B',), ('M', 1)])]), ['RUN', 'GOTO 30'])
+            keep('A', e, i, st, out, e, '/m1:ok')
+    for e, texts in sorted(RFAULTS.items()):
+        for i, _t in enumerate(texts):
+            st = ('F', e, i, 'R')
+            keep('R', e, i, st, impl.run(prog_text([(10, [('N', 2)]), (20, [st])]), ['RUN']), e)
+    for i in range(len(NOPS)):
+        out = impl.run(prog_text([(20, [('N', i), ('M', 1)])]), ['RUN'])
+        if out != 'ok m1:ok':
+            raise RuntimeError('statement %r is not neutral: %s' % (NOPS[i][:20], out))
+    for k in 'FCSKA':
         if not table[k]:
             raise RuntimeError('no usable entry in fault table %s' % k)
     return table
@@ -871,7 +1064,7 @@ def special_check(ctx, impl, text):
        trapped: the handler runs with the same ERR and ERL = 20 from any position of the line, RESUME NEXT goes
        on with the next statement, RESUME n with line n, RESUME re-executes (and fails again the same way)."""
     case = {'kind': 'special', 'stmt': text}
-    un = impl.run(['20 PRINT 1:%s:PRINT 2' % text], ['RUN', 'PRINT "E";ERR;ERL'])
+    un = impl.run(SPECIAL_DEFS + ['20 PRINT 1:%s:PRINT 2' % text], ['RUN', 'PRINT "E";ERR;ERL'])
     soft = False
     m = re.match(r'^ok m1:err(\d+)@20/e(\d+)\.(\d+):ok$', un)
     if not m:
@@ -904,11 +1097,18 @@ def special_check(ctx, impl, text):
          'm1,e{c}.20,e{c}.20,e{c}.20:ok'),
         ('gosub', ['10 ON ERROR GOTO 100', '15 GOSUB 20:PRINT 4:END', '20 PRINT 1:%s:PRINT 2' % text, '30 PRINT 3:RETURN',
                    H, '110 RESUME NEXT'], 'm1,e{c}.20,m2,m3,m4:ok'),
+        # blanks around the separators; the statement in front does not read the blanks that follow it
+        ('next-blanks', ['10 ON ERROR GOTO 100', '20  PRINT 1 : %s  :  PRINT 2 ' % text, '30 PRINT 3:END', H,
+                         '110 RESUME NEXT'], 'm1,e{c}.20,m2,m3:ok'),
+        ('next-after-nop', ['10 ON ERROR GOTO 100', '20 TROFF : %s : KEY OFF : PRINT 2' % text, '30 PRINT 3:END', H,
+                            '110 RESUME NEXT'], 'e{c}.20,m2,m3:ok'),
+        ('same-after-nop', ['10 ON ERROR GOTO 100', '20 PRINT 1:ON ERROR GOTO 100 : %s' % text, '30 PRINT 3:END', H,
+                            '110 RESUME'], 'm1,e{c}.20,e{c}.20,e{c}.20:ok'),
     ]
     for name, prog, want in shapes:
         if name == 'gosub' and text == 'RETURN':
             continue
-        got = impl.run(prog, ['RUN'])
+        got = impl.run(SPECIAL_DEFS + prog, ['RUN'])
         ctx.case(('special', text, name))
         if code is None:
             mm = re.search(r'e(\d+)\.20', got)
@@ -923,7 +1123,7 @@ def special_check(ctx, impl, text):
 
 # ---------------------------------------------------------------------------------------------
 
-def classify(ctx, lines, directs):
+def classify(ctx, lines, directs, lay=None):
     kinds = set()
     for _n, st in lines:
         for s in st:
@@ -932,11 +1132,16 @@ def classify(ctx, lines, directs):
                 ctx.count('fault-class:%d' % s[1])
             elif s[0] == 'C':
                 ctx.count('cfault-class:%d' % s[2])
+            elif s[0] == 'K':
+                ctx.count('fn-call:%s' % DEFS[s[1]].split('(')[0][4:])
+            elif s[0] == 'A':
+                ctx.count('for-expression-class:%d' % s[2])
             elif s[0] == 'E':
                 ctx.count('error-n:' + ('msg' if s[1] in ERRS_WITH_MSG else 'nomsg' if 1 <= s[1] <= 255 else 'range'))
     for k in kinds:
         ctx.count('stmt:' + k)
     ctx.count('directs:%d' % len(directs))
+    ctx.count('layout:' + ('plain' if lay is None else 'blanks'))
 
 
 ERRS_WITH_MSG = set(list(range(1, 21)) + list(range(22, 28)) + [29, 30] + [50, 51, 52, 53, 54, 55, 57, 58, 61, 62, 63,
@@ -947,12 +1152,13 @@ def run_batch(ctx, impl, progs):
     """progs: (name, lines, directs, case)"""
     outs, protos, cases = [], [], []
     for name, lines, directs, case in progs:
-        out = impl.run(prog_text(lines), [direct_text(d) for d in directs])
+        lay = case.get('lay')
+        out = impl.run(prog_text(lines, lay), direct_texts(directs, lay))
         outs.append(out)
         protos.append(proto(lines, directs))
         cases.append(case)
         ctx.case(('prog', name))
-        classify(ctx, lines, directs)
+        classify(ctx, lines, directs, lay)
         stats = {}
         res, events, complete = ref_run(lines, directs, stats)
         for k, v in stats.items():
@@ -968,9 +1174,18 @@ def run_batch(ctx, impl, progs):
             ev = [e for e in events if e != 'error']
             key = '%s:%s' % (case.get('kind'), ev[-1] if ev else 'plain') if case.get('kind') != 'fixed' else name
             ctx.fail(key, case, '%s; program %s ; directs %s ; implementation %s'
-                     % (bad, ' / '.join(prog_text(lines)), ' / '.join(direct_text(d) for d in directs), out))
+                     % (bad, ' / '.join(prog_text(lines, lay)), ' / '.join(direct_texts(directs, lay)), out))
     ctx.compare(cases, outs, protos, label='session')
     return outs
+
+
+def fixed_cases():
+    """every fixed program in the plain layout and with blanks around the separators"""
+    progs = []
+    for n, l, d in fixed_programs():
+        progs.append((n, l, d, {'kind': 'fixed', 'name': n, 'lay': None}))
+        progs.append((n + '/blanks', l, d, {'kind': 'fixed', 'name': n + '/blanks', 'lay': 7 + len(progs)}))
+    return progs
 
 
 def make(kind, pseed, table):
@@ -987,7 +1202,7 @@ def run(ctx):
     try:
         table = validate_table(ctx, impl)
         ctx.notes['fault_table'] = {k: {str(e): len(v) for e, v in t.items()} for k, t in table.items()}
-        progs = [(n, l, d, {'kind': 'fixed', 'name': n}) for n, l, d in fixed_programs()]
+        progs = fixed_cases()
         outs = run_batch(ctx, impl, progs)
         for (n, l, d, _c), o in list(zip(progs, outs))[:4]:
             ctx.sample({'name': n, 'program': prog_text(l), 'directs': [direct_text(x) for x in d], 'impl': o})
@@ -1001,7 +1216,8 @@ def run(ctx):
             for _ in range(n):
                 pseed = rng.randrange(1 << 40)
                 lines, directs = make(kind, pseed, table)
-                batch.append(('%s:%d' % (kind, pseed), lines, directs, {'kind': kind, 'pseed': pseed}))
+                batch.append(('%s:%d' % (kind, pseed), lines, directs,
+                              {'kind': kind, 'pseed': pseed, 'lay': layout_of(pseed)}))
                 ctx.count('kind:' + kind)
                 if len(batch) >= 250:
                     outs = run_batch(ctx, impl, batch)
@@ -1023,12 +1239,15 @@ def replay(ctx, payload):
     try:
         if case.get('kind') == 'special':
             special_check(sub, impl, case['stmt'])
+        elif case.get('kind') == 'table':
+            validate_table(sub, impl)
         elif case.get('kind') == 'fixed':
-            progs = [(n, l, d, {'kind': 'fixed', 'name': n}) for n, l, d in fixed_programs() if n == case.get('name')]
+            progs = [x for x in fixed_cases() if x[0] == case.get('name')]
             run_batch(sub, impl, progs)
         else:
             table = validate_table(sub, impl)
             lines, directs = make(case['kind'], case['pseed'], table)
+            case = dict(case, lay=layout_of(case['pseed']))
             run_batch(sub, impl, [('%s:%d' % (case['kind'], case['pseed']), lines, directs, case)])
     finally:
         impl.close()
